@@ -18,8 +18,8 @@
    renders both by concatenation.  Only pattern forms whose documented meaning is unambiguous are well-formed
    (WFPattern); everything else is outside the bounded grammar of the check.
 
-   Two layers:  PatMatches / Ignored           - the declarative meaning (the oracle of C48);
-                GlobsterPick / ExceptionPick ...- the shape of the implementation (which pattern is reported:
+   Two layers:  PatMatchesName / IgnoredD      - the declarative meaning (the oracle of C48);
+                Pick / ExceptionPick / SpecOut - the shape of the implementation (which pattern is reported:
                                                   extension, then basename, then fullpath patterns, in list order
                                                   inside a class), used for the design check and for drift.
    The laws of C48 are the Law* operators at the end; they judge *observed* results, so the same text judges
